@@ -297,11 +297,14 @@ structure Built where
 
 inductive PreOp where
   | build
+  /-- `BuildHandshakeStateWithoutSession`: re-marshal only (no `uLoadSession`, no patch, no lock) -/
+  | marshalOnly
   /-- a documented edit: changes the hello bytes before the binders block -/
   | edit (f : Bytes → Bytes)
 
 def PreOp.isBuild : PreOp → Bool
   | .build => true
+  | .marshalOnly => false
   | .edit _ => false
 
 /-- `BuildHandshakeState` calls among the pre-handshake calls. -/
@@ -321,6 +324,7 @@ def buildStep (F : Bytes → Bytes) (b : Built) : Built :=
 
 def preStep (F : Bytes → Bytes) (b : Built) : PreOp → Built
   | .build => buildStep F b
+  | .marshalOnly => { b with raw := b.head ++ bindersBlock [b.binder] }
   | .edit f => { b with head := f b.head }
 
 /-- after `uLoadSession` initialised the extension: zero placeholder, nothing marshalled yet. -/
@@ -330,6 +334,43 @@ def builtInit (head : Bytes) (hs : Nat) : Built :=
 /-- the bytes `Handshake` sends after the caller's pre-handshake calls: it always builds once more. -/
 def sentAfter (F : Bytes → Bytes) (b0 : Built) (ops : List PreOp) : Built :=
   buildStep F (ops.foldl (preStep F) b0)
+
+/-! ## `UtlsPreSharedKeyExtension.Len()` and its length cache
+
+`Len()` is called by every marshal, also by `BuildHandshakeStateWithoutSession` before any session is
+loaded (the extension object survives a repeated `ApplyPreset`). It must answer 0 **without touching
+the cache** while there is no session, so that the length after `InitializeByUtls` is that of the
+identities and binders set then. -/
+
+structure PskLenState where
+  hasSession : Bool
+  ids : List (Bytes × Nat)
+  binders : List Bytes
+  cachedLength : Option Nat
+  deriving Repr
+
+/-- `Len()`: result and the extension afterwards. -/
+def pskLen (e : PskLenState) : Nat × PskLenState :=
+  if !e.hasSession then (0, e)
+  else match e.cachedLength with
+    | some l => (l, e)
+    | none => let l := pskExtLen e.ids e.binders; (l, { e with cachedLength := some l })
+
+/-- `InitializeByUtls`. -/
+def pskInitByUtls (e : PskLenState) (ids : List (Bytes × Nat)) (binders : List Bytes) : PskLenState :=
+  { e with hasSession := true, ids := ids, binders := binders }
+
+/-- `n` calls of `Len()`. -/
+def pskLenCalls : Nat → PskLenState → PskLenState
+  | 0, e => e
+  | n + 1, e => pskLenCalls n (pskLen e).2
+
+/-- `BuildHandshakeStateWithoutSession` on a spec with the PSK extension and no session loaded yet:
+`Read` returns `ErrEmptyPsk` unless `OmitEmptyPsk` (documented; nothing is sent, the cache is not touched). -/
+def noSessionBuildFails (cfg : Cfg) (h : Hello) : Bool := !h.golang && h.hasPskExt && !cfg.omitEmptyPsk
+
+/-- a spec's fresh `&UtlsPreSharedKeyExtension{}`. -/
+def pskFresh : PskLenState := { hasSession := false, ids := [], binders := [], cachedLength := none }
 
 /-! ## HelloRetryRequest, PSK part -/
 
@@ -378,7 +419,7 @@ structure ConnIn where
   deriving Repr
 
 inductive Err where
-  | assertNoExt | panicIndex | emptyPsk | pskHrr | emsAbort | certTime | noVersion
+  | assertNoExt | panicIndex | emptyPsk | pskHrr | emsAbort | certTime | certName | noVersion
   deriving DecidableEq, Repr
 
 inductive Op where
@@ -450,6 +491,11 @@ def storesTicket (c : ConnIn) (nv : Nat) : Bool :=
 def certTimeOk (c : ConnIn) : Bool :=
   c.cfg.skipVerify || c.cfg.skipTimeVerify || (decide (c.srv.certNotBefore ≤ c.now) && decide (c.now ≤ c.srv.certNotAfter))
 
+/-- full handshake: `verifyServerCertificate` checks the presented certificate against the same name
+`loadSession` uses (`InsecureServerNameToVerify` "*": chain only, names ignored). -/
+def certNameOk (c : ConnIn) : Bool :=
+  c.cfg.skipVerify || (match dnsName c.cfg with | some n => c.srv.certNames.contains n | none => true)
+
 /-- what happens to the cache entry at the end of the connection. -/
 inductive Tail where
   /-- untouched -/
@@ -497,6 +543,7 @@ def outcome (T : Tables) (c : ConnIn) (d : Decision) : Outcome :=
             tail := if storesTicket c nv then .store nv (offeredSession d) else .keep }
         | .full =>
           if !certTimeOk c then fail .certTime hrr .full
+          else if !certNameOk c then fail .certName hrr .full
           else { hrr := hrr, srvRes := .full, err := none, resumed := false,
                  tail := if storesTicket c nv then .store nv none else .keep }
 
